@@ -210,6 +210,21 @@ func (g *gen) lit(t *Type) expr {
 		v = new(big.Int).Sub(new(big.Int).Lsh(big.NewInt(1), uint(bits)), big.NewInt(1))
 	default:
 		v = g.r.Big(bits)
+		// value classes the compiler has shortcuts for, derived from the drawn
+		// value itself (no further PRNG draws): powers of two, and literals in
+		// [2^31, 2^32) - stored in 32 bits with the top bit set - next to a
+		// wider operand
+		sel := new(big.Int).And(v, big.NewInt(7)).Int64()
+		rest := new(big.Int).Rsh(v, 3)
+		switch {
+		case sel == 0 && bits > 1:
+			k := new(big.Int).Mod(rest, big.NewInt(int64(bits))).Int64()
+			v = new(big.Int).Lsh(big.NewInt(1), uint(k))
+			g.feat["literal-power-of-two"] = true
+		case sel == 1 && bits > 32:
+			v = new(big.Int).Add(big.NewInt(1<<31), new(big.Int).And(rest, big.NewInt(1<<31-1)))
+			g.feat["literal-with-bit-31-set-next-to-a-wider-operand"] = true
+		}
 	}
 	return litExpr(t, v)
 }
